@@ -268,3 +268,61 @@ func VerifC04ResetAlias() {
 		}
 	}
 }
+
+// VerifC04ResetOrder: several tags in one file, on entries whose names start with one another's (`web` and `web2`,
+// `dns` and `dns_search`), at different depths (a whole service, one attribute): each acts on its own target,
+// in whichever order the entries are declared.
+func VerifC04ResetOrder() {
+	w := vrtRoot() + "/w"
+	v := "x" + vrtString("v", vrtParam("VL", 1), "ab")
+	svc := func(name string) map[string]any {
+		return map[string]any{"image": "i", "ports": []any{"8080:80"}, "dns": []any{"1.1.1.1"}, "dns_search": []any{name + v}, "user": "keep"}
+	}
+	vrtYamlFile(w+"/compose.yaml", map[string]any{"services": map[string]any{"web": svc("web"), "web2": svc("web2"), "other": svc("other")}})
+	whole := &yaml.Node{Kind: yaml.ScalarNode, Value: "null", Tag: "!reset"}
+	ports := nSeq()
+	ports.Tag = "!reset"
+	dns := &yaml.Node{Kind: yaml.ScalarNode, Value: "null", Tag: "!reset"}
+	over := nSeq(nStr("9.9.9.9"))
+	over.Tag = "!override"
+	var web2 *yaml.Node
+	if vrtChoice("attributesReversed", 2) == 1 {
+		web2 = nMap(nStr("dns_search"), over, nStr("dns"), dns, nStr("ports"), ports)
+	} else {
+		web2 = nMap(nStr("ports"), ports, nStr("dns"), dns, nStr("dns_search"), over)
+	}
+	var services *yaml.Node
+	switch vrtChoice("order", 3) {
+	case 0:
+		services = nMap(nStr("web"), whole, nStr("web2"), web2)
+	case 1:
+		services = nMap(nStr("web2"), web2, nStr("web"), whole)
+	case 2: // the longer name alone
+		services = nMap(nStr("web2"), web2)
+	}
+	wholeTagged := services.Content[0].Value == "web" || len(services.Content) > 2
+	vrtYamlNodeFile(w+"/override.yaml", nMap(nStr("services"), services))
+	m, err := tcLoadFiles(nil, w+"/compose.yaml", w+"/override.yaml")
+	vrtObserve("err", err != nil)
+	vrtAssert("loads", err == nil)
+	if err != nil {
+		vrtObserve("msg", err.Error())
+		return
+	}
+	if wholeTagged {
+		vrtAssert("whole-service-reset", tcSvc(m, "web") == nil)
+	} else {
+		vrtAssert("untagged-service-kept", tcSvc(m, "web")["user"] == any("keep"))
+	}
+	s := tcSvc(m, "web2")
+	vrtObserve("web2", s)
+	_, hasPorts := s["ports"]
+	_, hasDNS := s["dns"]
+	ds, _ := c04Strs(s["dns_search"])
+	vrtAssert("attribute-reset-in-the-service-with-the-longer-name", s != nil && !hasPorts && !hasDNS)
+	vrtAssert("override-of-the-attribute-with-the-longer-name", len(ds) == 1 && ds[0] == "9.9.9.9")
+	vrtAssert("rest-of-that-service-kept", s["user"] == any("keep") && s["image"] == any("i"))
+	o := tcSvc(m, "other")
+	od, _ := c04Strs(o["dns_search"])
+	vrtAssert("unmentioned-service-untouched", len(od) == 1 && od[0] == "other"+v && o["user"] == any("keep"))
+}
